@@ -389,3 +389,38 @@ impl VLoadBalancer {
     self.0.deactivate()
   }
 }
+
+// ---------------------------------------------------------------------------------------------
+// AnonymousIngressEngine (frame-by-frame / whole-message receive with a stash)
+// ---------------------------------------------------------------------------------------------
+
+pub struct VAnonIngress(crate::socket::patterns::anonymous_ingress::AnonymousIngressEngine);
+
+pub struct VAnonSender(crate::socket::patterns::ready_pipe_queue::PipeMessageSender);
+
+impl VAnonIngress {
+  pub fn new(activation_capacity: usize) -> Self {
+    Self(crate::socket::patterns::anonymous_ingress::AnonymousIngressEngine::new(activation_capacity))
+  }
+  pub fn register_pipe(&self, pipe_id: usize, capacity: usize) -> VAnonSender {
+    VAnonSender(self.0.register_pipe(pipe_id, capacity, 0))
+  }
+  pub fn deregister_pipe(&self, pipe_id: usize) {
+    self.0.deregister_pipe(pipe_id)
+  }
+  /// non-blocking `recv()` (RCVTIMEO = 0)
+  pub async fn recv_now(&self) -> Result<crate::Msg, ZmqError> {
+    self.0.recv(Some(std::time::Duration::ZERO)).await
+  }
+  /// non-blocking `recv_multipart()` (RCVTIMEO = 0)
+  pub async fn recv_multipart_now(&self) -> Result<crate::message::FrameBatch, ZmqError> {
+    self.0.recv_multipart(Some(std::time::Duration::ZERO)).await
+  }
+}
+
+impl VAnonSender {
+  /// `true` = queued, `false` = refused (full or closed)
+  pub fn try_send(&self, batch: crate::message::FrameBatch) -> bool {
+    self.0.try_send_sync(batch).is_ok()
+  }
+}
